@@ -5,8 +5,11 @@ package main
 // invocation run with --no-cache on a pristine machine. DESIGN.md §4.
 
 import (
+	"encoding/base64"
+	"encoding/hex"
 	"encoding/json"
 	"fmt"
+	"strconv"
 	"strings"
 
 	"github.com/go-gts/gts/internal/verifsim/core"
@@ -345,6 +348,11 @@ var optDefaults = map[string]string{"-t": ",", "-d": "\t", "-s": "both", "-k": "
 // neighbourOf prefers a value that shares its first byte with cur (a key that
 // is derived from part of a value cannot tell such neighbours apart).
 func neighbourOf(r *core.RNG, pool []string, cur string) string {
+	if cur != "" && r.Chance(1, 4) {
+		if a := aliasOf(r, cur); a != "" && a != cur {
+			return a
+		}
+	}
 	if cur != "" && r.Chance(1, 2) {
 		var nb []string
 		for _, v := range pool {
@@ -357,6 +365,53 @@ func neighbourOf(r *core.RNG, pool []string, cur string) string {
 		}
 	}
 	return pickS(r, pool)
+}
+
+// aliasOf returns another argument that a key encoding could confuse with
+// cur: the text a byte string is commonly written as (base64, hex, Go / JSON
+// escapes, invalid bytes replaced by U+FFFD), or the bytes such a text stands
+// for. It knows nothing of how gts encodes its keys today.
+func aliasOf(r *core.RNG, cur string) string {
+	raw := []byte(rawArgv([]string{cur})[0])
+	esc := func(b []byte) string {
+		var sb strings.Builder
+		for _, c := range b {
+			if c >= 0x80 || c < 0x20 {
+				fmt.Fprintf(&sb, "\\x%02x", c)
+			} else {
+				sb.WriteByte(c)
+			}
+		}
+		return sb.String()
+	}
+	if strings.Contains(cur, "\\x") {
+		switch r.Intn(6) {
+		case 0:
+			return base64.StdEncoding.EncodeToString(raw)
+		case 1:
+			return base64.URLEncoding.EncodeToString(raw)
+		case 2:
+			return hex.EncodeToString(raw)
+		case 3:
+			q := strconv.Quote(string(raw))
+			return q[1 : len(q)-1]
+		case 4:
+			j, _ := json.Marshal(string(raw))
+			return esc(j[1 : len(j)-1])
+		default:
+			return esc([]byte(strings.ToValidUTF8(string(raw), "\uFFFD")))
+		}
+	}
+	switch r.Intn(3) {
+	case 0:
+		if b, err := base64.StdEncoding.DecodeString(cur); err == nil && len(b) > 0 {
+			return esc(b)
+		}
+	case 1:
+		return base64.StdEncoding.EncodeToString(raw)
+	}
+	j, _ := json.Marshal(cur)
+	return string(j)
 }
 
 // outNames are output names whose extension a command may derive something
@@ -691,7 +746,7 @@ func genOptionPair(r *core.RNG, sc *cliScenario) *cliScenario {
 		}
 		i := find(&b)
 		for try := 0; try < 10; try++ {
-			nv := pickS(r, pool)
+			nv := neighbourOf(r, pool, b.Opts[i][1])
 			if nv != b.Opts[i][1] {
 				b.Opts[i][1] = nv
 				break
@@ -730,7 +785,7 @@ func mutateInvocation(r *core.RNG, a invocation) (invocation, string) {
 			for i, o := range v.Opts {
 				if pool, ok := optPools[a.Cmd][o[0]]; ok && len(o) > 1 && r.Chance(1, 2) {
 					j := 1 + r.Intn(len(o)-1)
-					nv := pickS(r, pool)
+					nv := neighbourOf(r, pool, o[j])
 					if nv != o[j] {
 						v.Opts[i][j] = nv
 						return v, "one-option-value"
